@@ -29,7 +29,10 @@ finished (or non-existent) thread is a `skip`.
 `kind=ctl` in a case header: the `AimdController` used directly (`AimdConfig::new().with_…`), as the retry AIMD budget uses
 it; it is the `.aimd` model with `ctl := true` and no latency threshold (`record_success()` takes no latency).
 
-Numbers: `usize`/`u64` are unbounded `Nat` (`saturating_add` never saturates below 2^64).
+Numbers: `usize`/`u64` are unbounded `Nat`. The AIMD additive step is `saturating_add` (and `saturating_mul` for
+`record_successes(n)`) followed by `.min(max_limit)`; it DOES saturate for legal configurations (`increase_by` / `n` near
+`usize::MAX`: header `inc=18446744073709551615`, op `N<a..e>`), and because the clamp comes last the result is the
+unbounded `min (r + inc) max` whenever `max_limit ≤ usize::MAX` (`aimdSuccNewSat_eq`, `aimdSuccsNewSat_eq`).
 The AIMD decrease `(r as f64 * factor) as usize` is a FUNCTION of the configuration (`Cfg.dec : Nat → Nat`): the
 theorems hold for every function with `dec r ≤ r` on the values within the bounds (`TR.Limit.DecOk`). The line
 protocol instantiates it with `f64Dec p q` — the exact transcription, in `Nat` arithmetic, of
@@ -128,6 +131,16 @@ def aimdFailNew (cfg : Cfg) (r : Nat) : Nat := max (cfg.dec r) cfg.min
 /-- `record_successes(n)`: the SUM is clamped -/
 def aimdSuccsNew (cfg : Cfg) (n r : Nat) : Nat := min (r + cfg.inc * n) cfg.max
 def vegasFailNew (cfg : Cfg) (r : Nat) : Nat := max (r / 2) cfg.min
+/-- `usize::saturating_add` / `usize::saturating_mul` (64-bit target): the exact result capped at `usize::MAX` -/
+def sat64 (x : Nat) : Nat := min x u64Max
+/-- `current.saturating_add(increase_by).min(max_limit)` as the code computes it in `usize`. The additive step DOES
+saturate for a legal configuration (`increase_by(usize::MAX)`: "straight to the ceiling on the first good response"); the
+clamp comes after the saturation, so the result is `aimdSuccNew` for every `max_limit` a `usize` can hold
+(`TR.Limit.aimdSuccNewSat_eq`) — which is why the model may compute in unbounded `Nat`. -/
+def aimdSuccNewSat (cfg : Cfg) (r : Nat) : Nat := min (sat64 (r + cfg.inc)) cfg.max
+/-- `current.saturating_add(increase_by.saturating_mul(n)).min(max_limit)`: both saturations, then the clamp
+(`TR.Limit.aimdSuccsNewSat_eq`) -/
+def aimdSuccsNewSat (cfg : Cfg) (n r : Nat) : Nat := min (sat64 (r + sat64 (cfg.inc * n))) cfg.max
 /-- the three-way choice of `adjust_limit` for queue estimate `q` -/
 def vegasNew (cfg : Cfg) (cl q : Nat) : Nat :=
   if q < cfg.alpha then min (cl + 1) cfg.max
@@ -348,6 +361,16 @@ def latNs (d : Nat) : Nat :=
   else if d = 8 then 1
   else 0
 
+/-- the count of the op `N<c>` (`record_successes(n)`): a digit is itself; `a` … `e` are the counts at which the `usize`
+arithmetic of the code saturates (`usize::MAX`, `usize::MAX − 1`, `2^63`, `2^32`, `usize::MAX / 2`) -/
+def succsCount (d : Char) : Nat :=
+  if d = 'a' then u64Max
+  else if d = 'b' then u64Max - 1
+  else if d = 'c' then 2 ^ 63
+  else if d = 'd' then 2 ^ 32
+  else if d = 'e' then u64Max / 2
+  else d.toNat - 48
+
 def parseProg : List Char → List FOp
   | [] => []
   | 'S' :: d :: tl => .succ (latNs (d.toNat - 48)) :: parseProg tl
@@ -356,7 +379,7 @@ def parseProg : List Char → List FOp
   | 'X' :: tl => .dropped :: parseProg tl
   | 'm' :: tl => .minL :: parseProg tl
   | 'M' :: tl => .maxL :: parseProg tl
-  | 'N' :: d :: tl => .succs (d.toNat - 48) :: parseProg tl
+  | 'N' :: d :: tl => .succs (succsCount d) :: parseProg tl
   | 'R' :: tl => .reset :: parseProg tl
   | 'K' :: tl => .clone :: parseProg tl
   | _ :: tl => parseProg tl
